@@ -83,6 +83,63 @@ theorem held_taskEdges (m t : Nat) (td : TaskD) :
   | recv b => cases b <;> simp [taskEdges, fld, HeldIn, good]
 
 
+theorem held_afnEdges (cb : Bool) (m t : Nat) (a : Option AfnD) :
+    ∀ e ∈ afnEdges cb m t a, good e.src = true →
+      (e.src = .tokioRt m ∨ e.src = .asyncExt m ∨ e.src = .state m) ∨
+        HeldIn (afnEdges cb m t a) e.src := by
+  intro e he hg
+  cases a with
+  | none => simp [afnEdges] at he
+  | some a =>
+    have hmp : HeldIn (afnEdges cb m t (some a)) (.mpsc m t) :=
+      ⟨fld (.state m) (.mpsc m t), by simp [afnEdges], rfl⟩
+    have he' := he
+    unfold afnEdges at he'
+    rcases List.mem_cons.mp he' with rfl | he'
+    · exact Or.inl (Or.inr (Or.inr rfl))
+    rcases List.mem_append.mp he' with hin | hal
+    · obtain ⟨⟨k, msg⟩, hk, hmem⟩ := List.mem_flatMap.mp hin
+      rcases List.mem_cons.mp hmem with rfl | hm
+      · exact Or.inr hmp
+      · rw [src_msgEdges _ msg e hm]
+        refine Or.inr ⟨fld (.mpsc m t) (.msg (.inbox m k)), ?_, rfl⟩
+        unfold afnEdges
+        exact List.mem_cons_of_mem _ (List.mem_append_left _
+          (List.mem_flatMap.mpr ⟨(k, msg), hk, List.mem_cons_self ..⟩))
+    · cases hali : a.alive with
+      | false => simp [hali] at hal
+      | true =>
+        have hts : HeldIn (afnEdges cb m t (some a)) (.taskState m t) :=
+          ⟨fld (.tokioRt m) (.taskState m t), by simp [afnEdges, hali], rfl⟩
+        simp only [hali, if_true, List.mem_append] at hal
+        rcases hal with ((h | h) | h) | h
+        · simp [fld] at h
+          rcases h with rfl | rfl | rfl | rfl | rfl
+          · exact Or.inl (Or.inl rfl)
+          · exact Or.inl (Or.inl rfl)
+          · exact Or.inl (Or.inr (Or.inl rfl))
+          · exact Or.inr hts
+          · exact Or.inr hmp
+        · cases hs : a.sleeping with
+          | none => simp [hs] at h
+          | some sl =>
+            simp [hs, fld] at h
+            rcases h with rfl | rfl
+            · exact Or.inr hts
+            · simp [good] at hg
+        · cases cb
+          · simp at h
+          · simp [fld] at h; subst h; exact Or.inr hts
+        · obtain ⟨⟨k, msg⟩, hk, hmem⟩ := List.mem_flatMap.mp h
+          rcases List.mem_cons.mp hmem with rfl | hm
+          · exact Or.inr hts
+          · rw [src_msgEdges _ msg e hm]
+            refine Or.inr ⟨fld (.taskState m t) (.msg (.held m k)), ?_, rfl⟩
+            unfold afnEdges
+            refine List.mem_cons_of_mem _ (List.mem_append_right _ ?_)
+            simp only [hali, if_true, List.mem_append]
+            exact Or.inr (List.mem_flatMap.mpr ⟨(k, msg), hk, List.mem_cons_self ..⟩)
+
 theorem held_modEdges (d : Desc) (m : Nat) (md : ModD) :
     ∀ e ∈ modEdges d m md, good e.src = true →
       (e.src = .tree ∨ ∃ p, p < m ∧ e.src = .ctx p) ∨ HeldIn (modEdges d m md) e.src := by
@@ -121,15 +178,23 @@ theorem held_modEdges (d : Desc) (m : Nat) (md : ModD) :
         ⟨fld (.asyncExt m) (.tokioRt m), by simp [modEdges, hrun], rfl⟩
       rcases List.mem_cons.mp he with rfl | ht
       · exact Or.inr h4
-      · obtain ⟨⟨t, td⟩, hin, hmem⟩ := List.mem_flatMap.mp ht
-        rcases held_taskEdges m t td e hmem hg with (h | h | h) | h
-        · rw [h]; exact Or.inr h6
-        · rw [h]; exact Or.inr h4
-        · rw [h]; exact Or.inr h3
-        · refine Or.inr (h.mono fun x hx => ?_)
-          simp only [modEdges, List.mem_append, hrun, if_true]
-          exact Or.inl (Or.inl (Or.inr (List.mem_cons_of_mem _
-            (List.mem_flatMap.mpr ⟨(t, td), hin, hx⟩))))
+      · rcases List.mem_append.mp ht with ht | ha
+        · obtain ⟨⟨t, td⟩, hin, hmem⟩ := List.mem_flatMap.mp ht
+          rcases held_taskEdges m t td e hmem hg with (h | h | h) | h
+          · rw [h]; exact Or.inr h6
+          · rw [h]; exact Or.inr h4
+          · rw [h]; exact Or.inr h3
+          · refine Or.inr (h.mono fun x hx => ?_)
+            simp only [modEdges, List.mem_append, hrun, if_true]
+            exact Or.inl (Or.inl (Or.inr (List.mem_cons_of_mem _ (List.mem_append_left _
+              (List.mem_flatMap.mpr ⟨(t, td), hin, hx⟩)))))
+        · rcases held_afnEdges _ m _ _ e ha hg with (h | h | h) | h
+          · rw [h]; exact Or.inr h6
+          · rw [h]; exact Or.inr h4
+          · rw [h]; exact Or.inr h3
+          · refine Or.inr (h.mono fun x hx => ?_)
+            simp only [modEdges, List.mem_append, hrun, if_true]
+            exact Or.inl (Or.inl (Or.inr (List.mem_cons_of_mem _ (List.mem_append_right _ hx))))
     · simp at he
   · obtain ⟨⟨k, msg⟩, hin, hmem⟩ := List.mem_flatMap.mp he
     rcases List.mem_cons.mp hmem with rfl | ht
@@ -248,6 +313,28 @@ theorem noConn_taskEdges (m t : Nat) (td : TaskD) : (taskEdges m t td).all noCon
   | sleep s => simp [taskEdges, noConn_fld]; rfl
   | recv b => cases b <;> simp [taskEdges, noConn_fld]
 
+theorem noConn_afnEdges (cb : Bool) (m t : Nat) (a : Option AfnD) :
+    (afnEdges cb m t a).all noConn = true := by
+  cases a with
+  | none => simp [afnEdges]
+  | some a =>
+    unfold afnEdges
+    simp only [List.all_cons, List.all_append, noConn_fld, Bool.true_and, Bool.and_eq_true]
+    constructor
+    · rw [List.all_flatMap, List.all_eq_true]
+      rintro ⟨k, msg⟩ _
+      simp [noConn_fld, noConn_msgEdges]
+    · cases a.alive
+      · simp
+      · simp only [if_true, List.all_append, Bool.and_eq_true]
+        refine ⟨⟨⟨by simp [noConn_fld], ?_⟩, by cases cb <;> simp [noConn_fld]⟩, ?_⟩
+        · cases a.sleeping
+          · simp
+          · simp [noConn_fld]; rfl
+        · rw [List.all_flatMap, List.all_eq_true]
+          rintro ⟨k, msg⟩ _
+          simp [noConn_fld, noConn_msgEdges]
+
 theorem noConn_modEdges (d : Desc) (m : Nat) (md : ModD) : (modEdges d m md).all noConn = true := by
   unfold modEdges
   simp only [List.all_append, Bool.and_eq_true]
@@ -261,7 +348,8 @@ theorem noConn_modEdges (d : Desc) (m : Nat) (md : ModD) : (modEdges d m md).all
   · simp [noConn_fld]
   · simp [List.all_flatMap, noConn_fld]
   · split
-    · simp only [List.all_cons, noConn_fld, Bool.true_and, List.all_flatMap]
+    · simp only [List.all_cons, noConn_fld, Bool.true_and, List.all_append, List.all_flatMap,
+        noConn_afnEdges, Bool.and_true]
       rw [List.all_eq_true]
       rintro ⟨t, td⟩ _
       exact noConn_taskEdges m t td
